@@ -279,3 +279,571 @@ def replay_world(rep, path, monitors=()):
         import difflib
         print("\n".join(list(difflib.unified_diff(a, b, "implementation", "model", lineterm=""))[:80]))
     return 1 if bad or a != b else 0
+
+
+# ------------------------------------------------------------------ crash runs
+
+SETTING_OPS = ("root", "log", "cfg", "cfgbind", "ftsrev", "chunk")
+
+
+def _run_crash_impl(args):
+    """One case on the implementation; when the process dies at the crash point
+    (exit 77) a new process continues the script on the same sandbox."""
+    exe, exe_model, script, timeout = args
+    sb = vlib.mk_sandbox()
+    try:
+        real = script.replace(hexs(CANON_ROOT)[1:], hexs(sb)[1:])
+        lines = [l for l in real.split("\n") if l.strip()]
+        out_all = []
+        pos = 0          # index of the first line not yet consumed
+        first = True
+        guard = 0
+        while pos < len(lines) and guard < 6:
+            guard += 1
+            if first:
+                chunk = ["case c"] + lines
+            else:
+                # re-establish settings and the clock, then go on after the crashed operation
+                settings = [l for l in lines[:pos] if l.split()[0] in SETTING_OPS]
+                clock = wc.CLOCK0 + sum(int(l.split()[1]) for l in lines[:pos] if l.split()[0] == "tick")
+                chunk = ["resume"] + settings + ["clock %d" % clock] + lines[pos:]
+            rc, out, err = vlib.run_driver(exe, ["world", sb], "\n".join(chunk) + "\n", timeout=timeout)
+            olines = out.split("\n")
+            if first:
+                olines = [l for l in olines if not l.startswith("case ")]
+            out_all += [l for l in olines if l != ""]
+            if rc != 77:
+                if rc != 0:
+                    out_all.append("driver-exit %s %s" % (rc, err[-300:].replace("\n", " ")))
+                break
+            # which operation crashed: count completed handler ops in this chunk's output
+            done = sum(1 for l in olines if l.startswith("op "))
+            seen = 0
+            crashed_at = None
+            for idx in range(pos, len(lines)):
+                if lines[idx].split()[0] in HANDLER_OPS:
+                    if seen == done:
+                        crashed_at = idx
+                        break
+                    seen += 1
+            if crashed_at is None:
+                out_all.append("driver-exit 77 without a running operation")
+                break
+            # the crash index is in the preceding oracle line
+            k = None
+            for idx in range(crashed_at - 1, -1, -1):
+                t = lines[idx].split()
+                if t[0] == "oracle":
+                    k = t[2] if t[1] == "crash" else None
+                    break
+            out_all.append("crashed %s at %s" % (lines[crashed_at].split()[0], k))
+            pos = crashed_at + 1
+            first = False
+        text = "\n".join(out_all)
+        text = text.replace(hexs(sb)[1:], hexs(CANON_ROOT)[1:]).replace(sb, CANON_ROOT)
+        mtext = None
+        if exe_model:
+            # the model continues in-process after a crash (memory lost, disk kept); same root, so that
+            # content hashes of files that mention the root agree
+            rc, out, err = vlib.run_driver(exe_model, ["world"], "case c\n" + "\n".join(lines) + "\n", timeout=timeout)
+            mtext = "\n".join(l for l in out.split("\n") if l and not l.startswith("case "))
+            if rc != 0:
+                mtext += "\nmodel-exit %s %s" % (rc, err[-300:].replace("\n", " "))
+            mtext = mtext.replace(hexs(sb)[1:], hexs(CANON_ROOT)[1:]).replace(sb, CANON_ROOT).split("\n")
+        return text.split("\n"), mtext
+    finally:
+        shutil.rmtree(sb, ignore_errors=True)
+
+
+def run_crash_cases(rep, exe_impl, exe_model, cases, monitors, projection=project_default, what="crash"):
+    """like run_cases, but the implementation really dies at the crash point"""
+    jobs = [(exe_impl, exe_model, s, 120) for _, s, _ in cases]
+    both = vlib.parallel_map(_run_crash_impl, jobs)
+    model = {c[0]: b[1] for c, b in zip(cases, both)}
+    problems = []
+    found = False
+    diverged = []
+    validated = 0
+    for (cid, script, meta), (il, _) in zip(cases, both):
+        steps = align(script.split("\n"), il)
+        tag_env(steps)
+        bad = None
+        if any(l.startswith("driver-exit") for l in il):
+            bad = "the implementation died: %s" % [l for l in il if l.startswith("driver-exit")][0]
+        for mname in monitors:
+            if bad:
+                break
+            r = MONITORS[mname](steps, meta)
+            if r:
+                bad = "%s: %s" % (mname, r)
+        if bad:
+            rep.violation(what, {"case": cid, "script": script.split("\n"), "implementation": wc.comparable(il),
+                                 "model": wc.comparable(model.get(cid)) if exe_model else None, "what": bad, "meta": meta,
+                                 "runner": "crash"}, found_input=True)
+            return True, validated
+        if exe_model:
+            a, b = projection(il), projection(model.get(cid))
+            if a != b:
+                diverged.append((cid, script, a, b))
+                continue
+        validated += 1
+    if diverged:
+        cid, script, a, b = diverged[0]
+        first = next((i for i, (x, y) in enumerate(zip(a, b)) if x != y), min(len(a), len(b)))
+        rep.violation("correspondence", {"case": cid, "script": script.split("\n"), "implementation": a, "model": b, "runner": "crash",
+                                         "first_difference": {"index": first, "implementation": a[first:first + 3], "model": b[first:first + 3]},
+                                         "what": "implementation and model differ on %d crash case(s); the monitors found no failing input" % len(diverged),
+                                         "broken": "correspondence (world driver, crash runner)"}, found_input=False)
+        found = True
+    for p in problems:
+        rep.notes.append(p)
+    return found, validated
+
+
+def count_calls(exe_impl, script_lines):
+    """fault-free run of the implementation: per handler op, the list of call names"""
+    s = "\n".join(script_lines)
+    impl, _, _ = vlib.correspond(exe_impl, None, "world", [("probe", s)], sandbox=True)
+    steps = align(script_lines, impl.get("probe") or [])
+    res = []
+    for i, st in enumerate(steps):
+        if st.op in HANDLER_OPS and st.result not in (None, "nohandler"):
+            res.append((i, [l.split(" ")[1] for l in st.log]))
+    return steps, res
+
+
+PLAUSIBLE = {
+    "open": ["EACCES", "ENOSPC", "EMFILE", "EIO", "ENOENT"],
+    "mkdir": ["EACCES", "ENOSPC"], "mkdirat": ["EACCES", "ENOSPC"],
+    "sendfile": ["EIO", "ENOSPC"], "write": ["EIO", "ENOSPC"],
+    "close": ["EIO"], "fstat": ["EIO"], "fstatat": ["EIO", "ENOMEM"], "readlinkat": ["EIO", "ENOMEM"],
+    "symlinkat": ["ENOSPC", "EIO"], "unlinkat": ["EIO"], "unlink": ["EIO"], "rmdir": ["EIO"],
+    "link": ["EMFILE", "ENOSPC"], "linkat": ["ENOSPC"], "ftruncate": ["EIO"], "scandir": ["ENOMEM", "EIO"],
+    "read": ["EIO"], "access": ["EIO"], "fts_open": ["ENOMEM"],
+}
+
+
+# ------------------------------------------------------------------ enumeration of fault / crash points
+
+def enumerate_cases(exe_impl, tier, kind, seed=1, only=None):
+    """kind 'crash': one case per call index of the operation under test;
+    kind 'fault': one case per call index and plausible errno.
+    The call indices come from the implementation's own fault-free log."""
+    rng = random.Random(seed)
+    cases = []
+    for sc in wc.scenarios(tier):
+        if only and sc["name"] not in only:
+            continue
+        base = wc.scenario_script(sc, crash=(kind == "crash")).split("\n")
+        steps, res = count_calls(exe_impl, base)
+        npre = len([l for l in sc["pre"] if l.strip()])
+        ops = [(i, c) for i, c in res if i >= npre][:len(sc["ops"])]
+        if not ops:
+            continue
+        names = ops[0][1]
+        for k, cname in enumerate(names):
+            if kind == "crash":
+                script = wc.scenario_script(sc, "oracle crash %d" % k, crash=True)
+                cases.append(("%s@%d" % (sc["name"], k), script, {"scenario": sc["name"], "k": k, "call": cname}))
+            else:
+                errs = PLAUSIBLE.get(cname, ["EIO"])
+                if tier == "quick" and len(errs) > 2:
+                    errs = rng.sample(errs, 2)
+                for e in errs:
+                    script = wc.scenario_script(sc, "oracle fail %d %s" % (k, e))
+                    cases.append(("%s@%d:%s" % (sc["name"], k, e), script, {"scenario": sc["name"], "k": k, "call": cname, "errno": e}))
+        if kind == "crash":
+            # one past the end: the operation completes
+            script = wc.scenario_script(sc, "oracle crash %d" % len(names), crash=True)
+            cases.append(("%s@%d" % (sc["name"], len(names)), script, {"scenario": sc["name"], "k": len(names), "call": None}))
+    return cases
+
+
+# ------------------------------------------------------------------ more monitors
+
+import re
+
+LABELS = {"xn", "xe", "wn", "we", "del", "forb", "st"}
+JOURNALS = ["/k/var/journal", "/k/var/journal2", "/k/var/journal3"]
+QUEUES = ["/k/var/queue", "/k/var/queue2", "/k/var/queue3"]
+HISTORY_RELS = {"hist.log"}
+
+
+def content(ent):
+    """bytes of a dumped file (None when too long to be included)"""
+    if not ent or ent[0] != "file" or len(ent) < 6 or ent[5] == "-":
+        return None
+    return unhexs(ent[5])
+
+
+def decode_target(t):
+    """flags and path of a queue link target (the queue codec)"""
+    m = 0
+    i = 0
+    while True:
+        if t[i + 1:i + 2] == "/":
+            m *= 2
+            i += 1
+        elif t[i + 1:i + 3] == "./":
+            m = m * 2 + 1
+            i += 2
+        else:
+            break
+    return m, t[i:]
+
+
+def queue_of(dump):
+    """[(number, path, flags, mtime)] of the (single non-empty) queue directory"""
+    out = []
+    for q in QUEUES:
+        for p, e in dump.items():
+            if p.startswith(q + "/") and e[0] == "link":
+                m, path = decode_target(unhexs(e[1]))
+                out.append((q, int(p[len(q) + 1:]), path, m, int(e[2])))
+    return out
+
+
+def mon_queue_form(steps, meta):
+    """C14/C03: every queue directory is a gap-free run of numbered links with decodable targets"""
+    for st in steps:
+        if st.dump is None:
+            continue
+        for q in QUEUES:
+            names = sorted(int(p[len(q) + 1:]) for p, e in st.dump.items() if p.startswith(q + "/") and p[len(q) + 1:].isdigit())
+            other = [p for p in st.dump if p.startswith(q + "/") and not p[len(q) + 1:].isdigit()]
+            if other:
+                return "queue directory holds a foreign entry %s" % other[0]
+            if names and names != list(range(names[0], names[0] + len(names))):
+                return "queue directory %s is not a gap-free run: %s" % (q, names)
+            for p, e in st.dump.items():
+                if p.startswith(q + "/") and (e[0] != "link" or not unhexs(e[1]).startswith("/")):
+                    return "queue entry %s is not a link to an absolute path" % p
+    return None
+
+
+def mon_journal(steps, meta):
+    """C19: journals only grow by whole well-formed lines; stored/deleted labels match what happened"""
+    prev = None
+    ops_between = []
+    for st in steps:
+        if st.op in HANDLER_OPS:
+            ops_between.append(st)
+        if st.dump is None:
+            continue
+        cur = st.dump
+        if prev is not None:
+            newlines = []
+            for j in JOURNALS:
+                a, b = content(prev.get(j)), content(cur.get(j))
+                if j in prev and j not in cur:
+                    return "journal %s disappeared" % j
+                if a is None and j in prev:
+                    continue
+                if b is None:
+                    continue
+                a = a or ""
+                if not b.startswith(a):
+                    return "journal %s: existing content was not kept as a prefix" % j
+                add = b[len(a):]
+                if add and not add.endswith("\n"):
+                    return "journal %s: torn line %r" % (j, add[-40:])
+                newlines += add.split("\n")[:-1]
+            for l in newlines:
+                f = l.split("\t")
+                # [ts] [label] [pid] path
+                if not (1 <= len(f) <= 4) or f[-1] == "":
+                    return "malformed journal line %r" % l
+                if len(f) >= 2 and not any(x in LABELS for x in f[:-1]) and meta.get("labels_all", True):
+                    return "journal line without a configured label: %r" % l
+            if st.tag_same_env and meta.get("journal_counts", True) and not any(o.result in ("error", "crashed", None) for o in ops_between):
+                nw = sum(1 for o in ops_between if o.op == "write")
+                nx = sum(1 for o in ops_between if o.op == "exec")
+                cw = sum(1 for l in newlines if "\twe\t" in "\t" + l or "\twn\t" in "\t" + l)
+                cx = sum(1 for l in newlines if "\txe\t" in "\t" + l or "\txn\t" in "\t" + l)
+                if (nw, nx) != (cw, cx):
+                    return "%d write and %d exec events were handled but the journal got %d and %d lines for them" % (nw, nx, cw, cx)
+                # stored lines must correspond to new versions / snapshots
+                for l in newlines:
+                    f = l.split("\t")
+                    if "st" in f[:-1]:
+                        rel = f[-1]
+                        base = rel.rsplit("/", 1)[-1]
+                        grew = any((p.startswith("/k/store/%s/" % rel) or p.startswith("/k/projects/%s/" % base)) and p not in prev for p in cur)
+                        if not grew:
+                            return "journal says %r was stored but nothing new is in the store" % rel
+                    if "del" in f[:-1] or "forb" in f[:-1]:
+                        rel = f[-1]
+                        grew = [p for p in cur if p.startswith("/k/store/%s/" % rel) and p not in prev]
+                        if grew:
+                            return "journal says %r was abandoned but %s appeared in the store" % (rel, grew[0])
+        prev = cur
+        ops_between = []
+    return None
+
+
+def mon_faithful(steps, meta):
+    """C05: a new version is byte-for-byte its source; an abandoned copy leaves no file and no empty directory"""
+    prev = None
+    for st in steps:
+        if st.dump is None:
+            continue
+        cur = st.dump
+        if prev is not None and st.tag_same_env:
+            for p, e in cur.items():
+                if not p.startswith("/k/store/") or p in prev:
+                    continue
+                if e[0] == "dir":
+                    if not any(q.startswith(p + "/") and cur[q][0] == "file" for q in cur):
+                        return "empty directory %s was left in the store" % p
+                elif e[0] == "file":
+                    rel = p[len("/k/store/"):].rsplit("/", 1)[0]
+                    src = cur.get("/w/" + rel)
+                    if rel in HISTORY_RELS:
+                        continue
+                    if src is None or src[0] != "file":
+                        return "version %s exists but its source is not a regular file" % p
+                    if file_sig(src) != file_sig(e):
+                        return "version %s (%s bytes) differs from its source (%s bytes)" % (p, e[2], src[2])
+        prev = cur
+    return None
+
+
+def version_key(name):
+    m = re.match(r"^v(\d+)(?:-(\d+))?", name)
+    return (int(m.group(1)), int(m.group(2) or 0)) if m else (0, 0)
+
+
+def mon_history(steps, meta):
+    """C08: concatenating the versions of an append-only path reproduces it up to the remembered position"""
+    allow_dup = meta.get("allow_duplicate_slice", False)
+    for st in steps:
+        if st.dump is None:
+            continue
+        d = st.dump
+        for rel in HISTORY_RELS:
+            src = content(d.get("/w/" + rel))
+            if src is None:
+                continue
+            vers = sorted((p for p in d if p.startswith("/k/store/%s/" % rel) and d[p][0] == "file"),
+                          key=lambda p: version_key(p.rsplit("/", 1)[1]))
+            parts = [content(d[p]) for p in vers]
+            if any(x is None for x in parts):
+                continue
+            cat = "".join(parts)
+            offc = content(d.get("/k/var/offsets/" + rel))
+            off = int(re.match(r"\d*", offc or "").group(0) or 0) if offc is not None else 0
+            if off > len(src):
+                return "remembered position %d is beyond the file (%d bytes)" % (off, len(src))
+            if cat != src[:off]:
+                if allow_dup and all(x in src for x in parts) and len(cat) >= off and src[:off] in cat + src:
+                    continue
+                return "versions of %s concatenate to %r, the file up to position %d is %r" % (rel, cat[-60:], off, src[:off][-60:])
+    return None
+
+
+def simulate_pass(queue, now, deb):
+    """which paths a timeout pass must hand to the store (reference FIFO semantics)"""
+    q = list(queue)
+    stored = []
+    while q:
+        _, num, path, m, mt = q[0]
+        if now - mt < deb:
+            break
+        if any(x[2] == path for x in q[1:]):
+            q.pop(0)
+            continue
+        stored.append((path, m))
+        q.pop(0)
+    return stored, q
+
+
+def mon_bursts(steps, meta):
+    """C02: a pass stores exactly one version of each due file with its current content, nothing else, and asks for the right wait"""
+    deb = meta.get("deb")
+    if deb is None:
+        return None
+    clock = wc.CLOCK0
+    prev = None
+    between = []
+    for st in steps:
+        if st.op == "tick":
+            clock += int(st.tok[1])
+        if st.op in HANDLER_OPS:
+            between.append(st)
+        if st.dump is None:
+            continue
+        cur = st.dump
+        if prev is not None and st.tag_same_env and len(between) == 1 and between[0].op == "timeout" and (between[0].result or "").startswith("pause"):
+            due, rest = simulate_pass(queue_of(prev), clock, deb)
+            new = {}
+            for p, e in cur.items():
+                if p.startswith("/k/store/") and p not in prev and e[0] == "file":
+                    new.setdefault(p[len("/k/store/"):].rsplit("/", 1)[0], []).append(p)
+            expect = {}
+            for path, m in due:
+                if m & 1:
+                    continue
+                rel = path[len(CANON_ROOT + "/w/"):]
+                src = cur.get("/w/" + rel)
+                expect[rel] = bool(src and src[0] == "file" and src[4] == "r")
+            for rel, want in expect.items():
+                got = len(new.get(rel, []))
+                if want and got != 1:
+                    return "%s was due and readable: %d new versions instead of exactly one" % (rel, got)
+                if not want and got:
+                    return "%s could not be copied but a version appeared" % rel
+            for rel in new:
+                if rel not in expect:
+                    return "a version of %s appeared although it was not due" % rel
+            pause = int(between[0].result.split()[1])
+            qa = queue_of(cur)
+            if [x[1:] for x in qa] != [x[1:] for x in rest]:
+                return "pending queue after the pass is %s, expected %s" % ([x[2] for x in qa], [x[2] for x in rest])
+            if not rest and pause != -1:
+                return "nothing pending but a wait of %d was requested" % pause
+            if rest:
+                exp = rest[0][4] + deb - clock
+                if pause != exp:
+                    return "wait %d requested, the earliest pending item is due in %d" % (pause, exp)
+        prev = cur
+        between = []
+    return None
+
+
+PROJECTS = {"proj": "/w/proj", "p1": "/w/pp/p1", "p2": "/w/pp/p2"}
+
+
+def mon_projects(steps, meta):
+    """C11: a new snapshot holds hard links to the latest version of every versioned member that still exists"""
+    prev = None
+    for st in steps:
+        if st.dump is None:
+            continue
+        cur = st.dump
+        if prev is not None and st.tag_same_env:
+            snaps = [p for p, e in cur.items() if e[0] == "dir" and p not in prev and re.match(r"^/k/projects/[^/]+/[^/]+$", p)]
+            for sdir in snaps:
+                name = sdir.split("/")[3]
+                root = PROJECTS.get(name)
+                if root is None:
+                    continue
+                members = {p[len(sdir) + 1:]: e for p, e in cur.items() if p.startswith(sdir + "/") and e[0] == "file"}
+                unstable = {p[len("/k/var/projects/%s/" % name):] for p, e in prev.items()
+                            if p.startswith("/k/var/projects/%s/" % name) and e[0] == "file"}
+                unstable |= {p[len("/k/var/projects/%s/" % name):] for p, e in cur.items()
+                             if p.startswith("/k/var/projects/%s/" % name) and e[0] == "file"}
+                for m, e in members.items():
+                    if (root + "/" + m) not in cur:
+                        return "snapshot %s contains %s which no longer exists in the project" % (sdir, m)
+                    vdir = "/k/store/%s/%s/" % (root[len("/w/"):], m)
+                    vers = sorted((p for p in cur if p.startswith(vdir)), key=lambda p: version_key(p.rsplit("/", 1)[1]))
+                    if not vers:
+                        return "snapshot member %s has no stored version" % m
+                    if cur[vers[-1]][1] != e[1]:
+                        return "snapshot member %s is not a hard link to the latest version %s" % (m, vers[-1])
+                for m in unstable:
+                    if (root + "/" + m) in cur and cur[root + "/" + m][0] == "file" and m not in members:
+                        return "versioned member %s still exists but is missing from snapshot %s" % (m, sdir)
+        prev = cur
+    return None
+
+
+def mon_recovery(steps, meta):
+    """C03/C10: after the disturbed operation and a restart + drain, every file that was pending and still is a
+    readable regular file has a complete version; the queue reloads"""
+    dumps = [st.dump for st in steps if st.dump is not None]
+    if len(dumps) < 2:
+        return None
+    pre, last = dumps[0], dumps[-1]
+    # every start after the disturbance must succeed
+    disturbed = False
+    for st in steps:
+        if st.op == "oracle":
+            disturbed = True
+        if disturbed and st.op == "start" and st.result not in ("ok", None):
+            if not meta.get("start_is_target"):
+                return "restart after the disturbance failed: %s" % st.trace
+    for (_, num, path, m, mt) in queue_of(pre):
+        if m & 1:
+            continue
+        rel = path[len(CANON_ROOT + "/w/"):]
+        src = last.get("/w/" + rel)
+        if not (src and src[0] == "file" and src[4] == "r"):
+            continue
+        vers = [p for p in last if p.startswith("/k/store/%s/" % rel) and last[p][0] == "file"]
+        if rel in HISTORY_RELS:
+            parts = [content(last[p]) for p in vers]
+            sc = content(src)
+            if sc is not None and all(x is not None for x in parts):
+                if not all(any(i < len(x) + o and o <= i for (o, x) in _positions(sc, parts)) for i in range(len(sc))):
+                    return "bytes of history path %s are missing from its versions after recovery" % rel
+            continue
+        if not any(file_sig(last[p]) == file_sig(src) for p in vers):
+            return "%s was pending before the disturbance and still exists, but no complete version of it was stored" % rel
+    return None
+
+
+def _positions(src, parts):
+    """best-effort placement of version slices inside the source"""
+    out = []
+    pos = 0
+    for x in parts:
+        i = src.find(x, max(0, pos - len(x))) if x else pos
+        if i < 0:
+            i = src.find(x)
+        if i < 0:
+            continue
+        out.append((i, x))
+        pos = i + len(x)
+    return out
+
+
+def mon_no_partial(steps, meta):
+    """C10: no partial version stays in the store after a reported failure"""
+    dumps = [st.dump for st in steps if st.dump is not None]
+    if len(dumps) < 2:
+        return None
+    pre, last = dumps[0], dumps[-1]
+    for p, e in last.items():
+        if p.startswith("/k/store/") and e[0] == "file" and p not in pre:
+            rel = p[len("/k/store/"):].rsplit("/", 1)[0]
+            if rel in HISTORY_RELS:
+                continue
+            src = last.get("/w/" + rel)
+            if src and src[0] == "file" and file_sig(src) != file_sig(e):
+                return "version %s (%s bytes) is not a complete copy of its source (%s bytes)" % (p, e[2], src[2])
+    return None
+
+
+def mon_fault_reported(steps, meta):
+    """C10: a disturbed operation either completes or reports an error; it never crashes the daemon"""
+    for st in steps:
+        if st.op in HANDLER_OPS and st.result is None:
+            return "operation '%s' produced no result (the daemon crashed?)" % st.line
+        if st.op in HANDLER_OPS and st.result == "error" and (st.trace in (None, "trace ok")):
+            return "operation '%s' failed without reporting an error" % st.line
+    return None
+
+
+def mon_resources(steps, meta):
+    """C20: with a handler loaded exactly two descriptors are open (queue directory, journal) after every
+    operation, none after release"""
+    loaded = False
+    for st in steps:
+        if st.op == "start" and st.result == "ok":
+            loaded = True
+        if st.op == "stop":
+            loaded = False
+        if st.x is None or st.result in ("error", "crashed", None):
+            continue
+        want = 2 if loaded else 0
+        if st.op in HANDLER_OPS and st.x["fds"] != want:
+            return "after '%s' %d descriptors are open, expected %d" % (st.line.split()[0], st.x["fds"], want)
+    return None
+
+
+MONITORS.update({
+    "queue_form": mon_queue_form, "journal": mon_journal, "faithful": mon_faithful, "history": mon_history,
+    "bursts": mon_bursts, "projects": mon_projects, "recovery": mon_recovery, "no_partial": mon_no_partial,
+    "fault_reported": mon_fault_reported, "resources": mon_resources,
+})
